@@ -158,6 +158,9 @@ func brokerPayload(tag string) []byte {
 	if tag == "M" {
 		n = 16384 - 8192 - 16
 	}
+	if tag == "L125" {
+		n = 125 // with a one-byte topic at QoS 0 the PUBLISH has a remaining length of exactly 128: two length bytes
+	}
 	if tag == "MID" {
 		n = 12000 // fits a 16 KiB ring, but not next to a read block of 8 KiB (only a will can be that long: it arrives in the CONNECT)
 	}
@@ -321,7 +324,7 @@ func (c *eofJoinConn) Read(b []byte) (int, error) {
 	return n, err
 }
 
-var payloadTags = []string{"x", "y", "z", "w", "w1", "w2", "w3", "B", "B2", "M", "p1", "p2", "MID", "HUGE"}
+var payloadTags = []string{"x", "y", "z", "w", "w1", "w2", "w3", "B", "B2", "M", "p1", "p2", "MID", "HUGE", "L125"}
 
 func init() {
 	// "m<id>": one payload per packet identifier (configurations with many exchanges open at once)
